@@ -19,6 +19,11 @@ type moveGenerator struct {
 
 	ms []tak.Move
 	i  int
+
+	// teCopy holds the table entry as it was when the generator was
+	// created; te points at it. The table slot itself may be
+	// overwritten while this node's children are being searched.
+	teCopy tableEntry
 }
 
 type sortMoves struct {
@@ -55,6 +60,16 @@ func (mg *moveGenerator) sortMoves() {
 
 func (mg *moveGenerator) Reset() {
 	mg.i = 0
+}
+
+// snapshotTE copies the table entry into the generator, so that the
+// hint move used for ordering and de-duplication cannot change while
+// the generator is being iterated.
+func (mg *moveGenerator) snapshotTE() {
+	if mg.te != nil {
+		mg.teCopy = *mg.te
+		mg.te = &mg.teCopy
+	}
 }
 
 func (mg *moveGenerator) Next() (m tak.Move, p *tak.Position) {
